@@ -560,6 +560,11 @@ func (nfs *Nfs) doRemove(dfh nfstypes.Nfs_fh3, name nfstypes.Filename3, isdir bo
 		util.DPrintf(0, "Remove failed\n")
 		return op, nfstypes.NFS3ERR_IO
 	}
+	if inodes[0].Kind == nfstypes.NF3DIR {
+		// the removed directory's ".." was a link to its parent
+		inodes[1].Nlink = inodes[1].Nlink - 1
+		inodes[1].WriteInode(op.Atxn)
+	}
 	nfs.doDecLink(op, inodes[0])
 	return op, nfstypes.NFS3_OK
 }
